@@ -7,6 +7,7 @@ class Trig:
     def __init__(s, eng):
         s.eng = eng; s.pairs = {}; s.pair_terms = {}; s.roots = {}; s.atoms = []
         s.atan2s = []; s.acoss = []; s.expand = True
+        s.algebraic = None     # set by a harness: object with sqrt(x)->term|None used to resolve roots exactly (atan2/acos pairs become rational terms)
     def key(s, t): return z3.simplify(t, som=True).sexpr()
     def pair(s, t):
         k = s.key(t)
@@ -70,6 +71,9 @@ class Trig:
         if acc is None: return (z3.RealVal(0), z3.RealVal(1))
         return (z3.simplify(acc[0]), z3.simplify(acc[1]))
     def sqrt(s, x):
+        if s.algebraic is not None:
+            r = s.algebraic.sqrt(x)
+            if r is not None: return r
         k = s.key(x)
         if k not in s.roots:
             r = fresh('sqrt'); s.eng.side += [r >= 0, z3.Implies(x >= 0, r * r == x)]; s.eng.side_lin.append(r >= 0); s.roots[k] = r
@@ -80,6 +84,10 @@ class Trig:
         if k in s.roots: return s.roots[k]
         r = s.sqrt(x * x + y * y)
         th = fresh('atan2')
+        if s.algebraic is not None:
+            # exact mode: (sin, cos) = (y, x)/r as rational terms (r != 0 is a listed class assumption); no fresh pair, no constraints
+            s.set_pair(th, y / r, x / r); s.roots[k] = th; s.atan2s.append((th, y, x)); s.eng.side_lin += [th > -PI, th <= PI]; s.eng.side += [th > -PI, th <= PI]
+            return th
         sv, cv = s.pair(th)
         s.eng.side_lin += [th > -PI, th <= PI]
         s.eng.side += [r * sv == y, r * cv == x, th > -PI, th <= PI,
@@ -93,7 +101,11 @@ class Trig:
     def acos(s, v):
         k = 'acos|' + s.key(v)
         if k in s.roots: return s.roots[k]
-        th = fresh('acos'); sv, cv = s.pair(th)
+        th = fresh('acos')
+        if s.algebraic is not None:
+            s.set_pair(th, s.sqrt(1 - v * v), v); s.roots[k] = th; s.acoss.append((th, v)); s.eng.side_lin += [th >= 0, th <= PI]; s.eng.side += [th >= 0, th <= PI]
+            return th
+        sv, cv = s.pair(th)
         # the value of th is irrelevant when v is out of range (the result is NaN-flagged), so its range may be stated unconditionally
         s.eng.side_lin += [th >= 0, th <= PI]; s.eng.side += [th >= 0, th <= PI]
         s.eng.side.append(z3.Implies(z3.And(v >= -1, v <= 1), z3.And(cv == v, sv >= 0, th >= 0, th <= PI,
